@@ -491,7 +491,12 @@ class Model:
 
         def member(m, value):
             if m.kind in ("scalar", "enum", "set"):
-                ev.append("F %s %x" % (m.name, value & (2 ** (8 * m.size) - 1)))
+                extra = ""
+                if m.kind == "enum":
+                    extra = " V %s" % self.enum_value_name(m, value)
+                elif m.kind == "set":
+                    extra = " S %s" % self.set_choices_text(m, value)
+                ev.append("F %s %x%s" % (m.name, value & (2 ** (8 * m.size) - 1), extra))
             elif m.kind == "array":
                 ev.append("F %s %s" % (m.name, value.hex() or "-"))
             elif m.kind == "composite":
